@@ -75,7 +75,7 @@ func newKeyShortcutAdditionalProperties(astNode schema.ASTNode) *AdditionalPrope
 		if an.IsKeyShortcut {
 			if hasAdditionalPropertiesRule {
 				if (ap.TokenType == schema.TokenTypeBoolean && ap.Value == internal.StringTrue) ||
-					(ap.TokenType == schema.TokenTypeString && ap.Value == internal.StringAny) {
+					(ap.TokenType == schema.TokenTypeString && isUnconstrainedType(ap.Value)) {
 					return nil
 				}
 			}
@@ -84,6 +84,13 @@ func newKeyShortcutAdditionalProperties(astNode schema.ASTNode) *AdditionalPrope
 	}
 
 	return nil
+}
+
+// isUnconstrainedType reports whether the type name admits every value: "any", and
+// "mixed" / "enum", which name no particular type or list of values when they stand
+// alone in an additionalProperties rule.
+func isUnconstrainedType(s string) bool {
+	return s == internal.StringAny || s == string(schema.SchemaTypeMixed) || s == internal.StringEnum
 }
 
 func newAnyOfAdditionalProperties(node schema.ASTNode) *AdditionalProperties {
@@ -108,7 +115,7 @@ func newStringAdditionalProperties(r schema.RuleASTNode) *AdditionalProperties {
 		return &AdditionalProperties{mode: additionalPropertiesObject}
 	}
 
-	if r.Value == internal.StringAny {
+	if isUnconstrainedType(r.Value) {
 		return nil
 	}
 
